@@ -61,6 +61,16 @@ func (r *round2) StoreBroadcastMessage(msg round.Message) error {
 		return fmt.Errorf("commitment: %w", err)
 	}
 
+	// the polynomial must have the agreed degree, otherwise it cannot be combined
+	// with the other participants' polynomials
+	if body.Phi_i.Degree() != r.threshold {
+		return fmt.Errorf("party %s sent a polynomial of the wrong degree", from)
+	}
+	// outside of a refresh, the constant coefficient must be present
+	if !r.refresh && body.Phi_i.IsConstant {
+		return fmt.Errorf("party %s sent a polynomial without constant coefficient", from)
+	}
+
 	// These steps come from Figure 1, Round 1 of the Frost paper
 
 	// 5. "Upon receiving ϕₗ, σₗ from participants 1 ⩽ l ⩽ n, participant
